@@ -333,7 +333,7 @@ func (p *c30Profile) settingEngine(se *SettingEngine) {
 			se.SetSRTPReplayProtectionWindow(1)
 			se.SetSRTCPReplayProtectionWindow(1)
 		case "receive-mtu-small":
-			se.SetReceiveMTU(600)
+			se.SetReceiveMTU(1250) // below the usual 1460, above a DTLS handshake fragment
 		case "receive-mtu-large":
 			se.SetReceiveMTU(16384)
 		case "answering-dtls-client":
@@ -387,12 +387,46 @@ func (p *c30Profile) trackCap(kind RTPCodecType) (RTPCodecCapability, bool) {
 	return RTPCodecCapability{}, false
 }
 
+// c30CommonCaps returns, per kind, the first primary codec of own (nil: default application) that other (nil:
+// default application) registered too - nil when there is none.
+func c30CommonCaps(own, other *c30Profile) map[RTPCodecType]*RTPCodecCapability {
+	dv, da := c30DefaultCodecs()
+	lists := func(p *c30Profile) map[RTPCodecType][]RTPCodecParameters {
+		if p == nil {
+			return map[RTPCodecType][]RTPCodecParameters{RTPCodecTypeVideo: dv, RTPCodecTypeAudio: da}
+		}
+
+		return map[RTPCodecType][]RTPCodecParameters{RTPCodecTypeVideo: p.video, RTPCodecTypeAudio: p.audio}
+	}
+	mine, theirs := lists(own), lists(other)
+	out := map[RTPCodecType]*RTPCodecCapability{}
+	for _, kind := range []RTPCodecType{RTPCodecTypeVideo, RTPCodecTypeAudio} {
+		out[kind] = nil
+		for _, c := range mine[kind] {
+			if c30IsRTX(c) || out[kind] != nil {
+				continue
+			}
+			for _, d := range theirs[kind] {
+				if strings.EqualFold(c.MimeType, d.MimeType) && c.ClockRate == d.ClockRate && c.Channels == d.Channels && c.SDPFmtpLine == d.SDPFmtpLine {
+					out[kind] = &RTPCodecCapability{MimeType: c.MimeType, ClockRate: c.ClockRate, Channels: c.Channels, SDPFmtpLine: c.SDPFmtpLine}
+
+					break
+				}
+			}
+		}
+	}
+
+	return out
+}
+
 // ---------------------------------------------------------------- grafting foreign m-sections onto a live offer
 
 type c30Graft struct {
 	Source string   `json:"source"`
 	Mids   []string `json:"mids"`
 	Kinds  []string `json:"kinds"`
+	// Streams says per grafted section whether its stream announcement is the foreign stack's or was added
+	Streams []string `json:"streams"`
 
 	secs [][]string // grafted sections without transport lines; "\x00transport" marks where they go
 }
@@ -452,6 +486,15 @@ func c30NewGraft(r *kit.Rand, host, foreign, source string) *c30Graft { //nolint
 		}
 	}
 	kit.Shuffle(r, media)
+	if r.Chance(0.7) {
+		// sections that announce streams (ssrc / rid) first: they are the ones background work is started for
+		sort.SliceStable(media, func(i, j int) bool {
+			di := c30FirstWithPrefix(media[i], "a=ssrc") != "" || c30FirstWithPrefix(media[i], "a=rid") != ""
+			dj := c30FirstWithPrefix(media[j], "a=ssrc") != "" || c30FirstWithPrefix(media[j], "a=rid") != ""
+
+			return di && !dj
+		})
+	}
 	n := r.Range(1, 3)
 	if n > len(media) {
 		n = len(media)
@@ -500,9 +543,42 @@ func c30NewGraft(r *kit.Rand, host, foreign, source string) *c30Graft { //nolint
 		if !placed {
 			res = append(res, "a=mid:"+mid, c30TransportMark)
 		}
+		decl := "as-written"
+		if c30FirstWithPrefix(res, "a=ssrc") == "" && c30FirstWithPrefix(res, "a=rid") == "" && r.Chance(0.65) {
+			// many corpus literals stop at the codec lines: let the section announce streams the way senders do, so that
+			// receivers are really started for it (primary only | primary + repair flow | two tracks | rid layers)
+			p1 := uint32(r.Range(1, 1<<31)) //nolint:gosec
+			msid := fmt.Sprintf("graft%d track%d", k, k)
+			ssrcLines := func(x uint32, id string) []string {
+				return []string{fmt.Sprintf("a=ssrc:%d cname:graft", x), fmt.Sprintf("a=ssrc:%d msid:%s", x, id)}
+			}
+			switch r.Intn(5) {
+			case 0:
+				decl = "ssrc"
+				res = append(res, ssrcLines(p1, msid)...)
+			case 1, 2:
+				decl = "ssrc+fid"
+				res = append(res, fmt.Sprintf("a=ssrc-group:FID %d %d", p1, p1+1))
+				res = append(res, ssrcLines(p1, msid)...)
+				res = append(res, ssrcLines(p1+1, msid)...)
+			case 3:
+				decl = "two-tracks"
+				res = append(res, ssrcLines(p1, msid)...)
+				res = append(res, ssrcLines(p1+7, "graftB trackB")...)
+			default:
+				decl = "rid"
+				res = append(res, "a=msid:"+msid, "a=rid:q send", "a=rid:h send", "a=simulcast:send q;h")
+			}
+			for j, ln := range res {
+				if (ln == "a=recvonly" || ln == "a=inactive") && r.Chance(0.7) {
+					res[j] = kit.Pick(r, []string{"a=sendrecv", "a=sendonly"})
+				}
+			}
+		}
 		g.secs = append(g.secs, res)
 		g.Mids = append(g.Mids, mid)
 		g.Kinds = append(g.Kinds, strings.TrimPrefix(f[0], "m="))
+		g.Streams = append(g.Streams, decl)
 	}
 
 	return g
